@@ -9,7 +9,7 @@ ROOT = os.path.dirname(os.path.dirname(os.path.abspath(__file__)))
 rows = {}
 for path in sys.argv[1:]:
     for line in open(path, errors="replace"):
-        m = re.match(r"^(C\d\d[ab]): \[(C\d\d) (\d+)s exit=(\d+)\]\s*(.*)$", line.strip())
+        m = re.match(r"^(C\d\d[a-d]): \[(C\d\d) (\d+)s exit=(\d+)\]\s*(.*)$", line.strip())
         if not m:
             continue
         sid, chk, secs, rc, rest = m.groups()
